@@ -284,11 +284,38 @@ class Spec:
             sp.extra_checks.append(fn)
             return fn
 
+        def census(method, files, expected, why):
+            """Call-site census: every call `<x>.method(...)` in the given files must be one of `expected`
+            [(file, enclosing qualname)]; a new caller is spec drift (it needs a contract first)."""
+            import ast as _ast
+            import os as _os
+            from .state import SpecDrift
+
+            def run(repo):
+                found = []
+                for f in files:
+                    tree = _ast.parse(open(_os.path.join(repo, f)).read())
+
+                    def walk(node, qual):
+                        for ch in _ast.iter_child_nodes(node):
+                            q = qual
+                            if isinstance(ch, (_ast.FunctionDef, _ast.ClassDef)):
+                                q = (qual + "." if qual else "") + ch.name
+                            if isinstance(ch, _ast.Call) and isinstance(ch.func, _ast.Attribute) and ch.func.attr == method:
+                                found.append((f, qual))
+                            walk(ch, q)
+                    walk(tree, "")
+                extra = sorted(set(found) - set(expected))
+                if extra:
+                    raise SpecDrift("new caller of %s without a contract: %s (%s)" % (method, extra, why))
+            sp.extra_checks.append(run)
+            sp.assumptions.append("census: %s is called only from %s" % (method, expected))
+
         ns = dict(cls=cls, ghost=ghost, assumed=assumed, verified=verified, target=target, loop=loop,
                   fold_sum=fold_sum, fold_all=fold_all, fold_cat=fold_cat, use_rev=use_rev, fold_unit=fold_unit, rev_hints=rev_hints, attr=attr, seq_lemma=seq_lemma, lemma=lemma,
                   exceptions=exceptions, attr_sort=attr_sort, const=const, assume_note=assume_note,
                   undecided=undecided, pure=pure, ufunc=ufunc, forall=forall, exists=exists,
-                  extra_check=extra_check, rx=re.compile, SPEC=sp)
+                  extra_check=extra_check, census=census, rx=re.compile, SPEC=sp)
         for k in ("INT BOOL STR BYTES NONE ANY Seq Tup Opt SetS MapS Opaque Enum Obj V If And Or Not Implies "
                   "Len In TRUE FALSE lift eq truthy mkset mapstore mapdel mapeq").split():
             ns[k] = getattr(S, k)
